@@ -6,6 +6,7 @@ package main
 import (
 	"fmt"
 	"go/ast"
+	"go/constant"
 	"go/token"
 	"go/types"
 	"sort"
@@ -19,7 +20,8 @@ func init() {
 		Doc: "For every traversal of the parser AST / analyzed AST — Kind()- or type-switch clauses, per-kind String()/Constant() methods, " +
 			"and functions that receive a node struct and descend into its children (printers, analyzer over the parser AST, compiler, interpreter, optimizer, fuzzer Transformer, " +
 			"the fuzzer's loop-control guard) — and for every node struct K handled there: each field of K that can make two programs differ is read in the code handling K " +
-			"(reads are followed into callees that receive the node or one of its component structs by value; passing the node on as a whole counts as reading all of it). " +
+			"(reads are followed into callees that receive the node or one of its component structs by value; passing the node on as a whole counts as reading all of it; a clause ending in fallthrough includes the clause it falls into; " +
+			"a switch over a local that holds x.Kind() is a switch over x.Kind(); a function that only hands the node to several step functions is the unit for all of them). " +
 			"Which fields count depends on the role of the traversal, decided from types: children (anything containing expressions/statements/blocks) and identifiers always; " +
 			"types and flags/operators/payloads for printers, the analyzer and rebuilders; for compiler/interpreter syntactic flags (types and analysis results only informational); " +
 			"predicates (bool result) need the children only, may skip them in a clause that returns the absorbing value of the predicate's own fold (the safe answer), and a loop-control predicate " +
@@ -61,7 +63,7 @@ type travUnit struct {
 	// construct is refused at run time with a freshly built interrupt/error (a fragment
 	// boundary of this engine), so its children are legitimately not evaluated
 	rejects bool
-	ifc        *types.Named // dispatch units: the interface dispatched on
+	ifc     *types.Named // dispatch units: the interface dispatched on
 }
 
 var travPkgs = []string{"homescript/analyzer", "homescript/compiler", "homescript/interpreter", "homescript/optimizer", "homescript/fuzzer"}
@@ -281,7 +283,11 @@ func (r *travRun) dispatches(p *packages.Package, fd *ast.FuncDecl) []*travDispa
 			case *ast.FuncLit:
 				return true
 			case *ast.SwitchStmt:
-				call, ok := x.Tag.(*ast.CallExpr)
+				if x.Tag == nil {
+					return true
+				}
+				// the tag is x.Kind(), or a local that holds it (`switch k := x.Kind(); k`, `k := x.Kind(); switch k`)
+				call, ok := ast.Unparen(travSoleDef(info, fd, x.Tag)).(*ast.CallExpr)
 				if !ok || len(call.Args) != 0 {
 					return true
 				}
@@ -300,9 +306,8 @@ func (r *travRun) dispatches(p *packages.Package, fd *ast.FuncDecl) []*travDispa
 					d.clauses = append(d.clauses, cc)
 					for _, e := range cc.List {
 						if k := ConstOf(info, e); k != nil {
-							if s := m.byKind[k]; s != nil {
-								d.kinds[cc] = append(d.kinds[cc], s)
-							}
+							// (normally one struct per kind; when two structs return the same kind constant the clause receives both)
+							d.kinds[cc] = append(d.kinds[cc], m.byKindAll[k]...)
 						}
 					}
 				}
@@ -388,7 +393,7 @@ func (r *travRun) enumerate() []*travUnit {
 			u := &travUnit{pkg: p, fd: fd, fn: fn, pos: fd.Pos(), subject: s, role: role,
 				key:   travFuncKey(p, fd),
 				scope: travScope{pkg: p, root: fd.Body}}
-			u.soleReturn = travSoleReturn(fd.Body.List)
+			u.soleReturn = travSoleReturnC(p.TypesInfo, fd.Body.List)
 			units = append(units, u)
 		}
 	}
@@ -423,12 +428,14 @@ func (r *travRun) enumerate() []*travUnit {
 						if role == roleNone {
 							role = roleConsume
 						}
+						// the code of a clause ending in `fallthrough` continues in the next clause
+						chain, body := travFallChain(d.clauses, cc)
 						skip := map[ast.Node]bool{}
 						for _, o := range d.outer {
 							skip[o] = true
 						}
 						for _, o := range d.clauses {
-							if o != cc {
+							if !chain[o] {
 								skip[o] = true
 							}
 						}
@@ -443,8 +450,8 @@ func (r *travRun) enumerate() []*travUnit {
 							u.scope.subject = nil
 						}
 						if len(d.kinds[cc]) >= 1 {
-							u.soleReturn = travSoleReturn(cc.Body)
-							u.rejects = travRejects(p, cc.Body)
+							u.soleReturn = travSoleReturnC(p.TypesInfo, body)
+							u.rejects = travRejects(p, body)
 						}
 						units = append(units, u)
 					}
@@ -549,10 +556,20 @@ func (r *travRun) enumerate() []*travUnit {
 			}
 		}
 		if own == 0 && len(sh.follows) > 0 {
+			// a function that reads nothing of S itself and hands S to one traversal is a pure
+			// forwarder (the callee is the unit). One that hands S to several functions has been
+			// split into steps: it stays the unit (the steps together handle S) and subsumes them.
+			receivers, descending := 0, 0
 			for f, ss := range sh.follows {
-				if ss[cd.u.subject] && descends[f] {
-					forwarder[cd] = true
+				if ss[cd.u.subject] && f != cd.u.fn {
+					receivers++
+					if descends[f] {
+						descending++
+					}
 				}
+			}
+			if descending > 0 && receivers == 1 {
+				forwarder[cd] = true
 			}
 		}
 	}
@@ -580,6 +597,99 @@ func (r *travRun) enumerate() []*travUnit {
 	}
 	sort.SliceStable(units, func(i, j int) bool { return units[i].key < units[j].key })
 	return units
+}
+
+// travSoleDef: e itself, or — when e is a local variable that is assigned exactly once in
+// fd and never has its address taken — the expression it is assigned from.
+func travSoleDef(info *types.Info, fd *ast.FuncDecl, e ast.Expr) ast.Expr {
+	id, ok := ast.Unparen(e).(*ast.Ident)
+	if !ok {
+		return e
+	}
+	o, _ := info.Uses[id].(*types.Var)
+	if o == nil || o.IsField() || fd.Body == nil || o.Pos() < fd.Body.Pos() || o.Pos() > fd.Body.End() {
+		return e
+	}
+	var rhs ast.Expr
+	n := 0
+	ast.Inspect(fd.Body, func(x ast.Node) bool {
+		switch y := x.(type) {
+		case *ast.AssignStmt:
+			for i, l := range y.Lhs {
+				lid, ok := ast.Unparen(l).(*ast.Ident)
+				if !ok || (info.Defs[lid] != o && info.Uses[lid] != o) {
+					continue
+				}
+				n++
+				if len(y.Lhs) == len(y.Rhs) && (y.Tok == token.DEFINE || y.Tok == token.ASSIGN) {
+					rhs = y.Rhs[i]
+				} else {
+					n++
+				}
+			}
+		case *ast.ValueSpec:
+			for i, nm := range y.Names {
+				if info.Defs[nm] == o {
+					n++
+					if len(y.Names) == len(y.Values) {
+						rhs = y.Values[i]
+					} else {
+						n++
+					}
+				}
+			}
+		case *ast.IncDecStmt:
+			if lid, ok := ast.Unparen(y.X).(*ast.Ident); ok && info.Uses[lid] == o {
+				n += 2
+			}
+		case *ast.UnaryExpr:
+			if lid, ok := ast.Unparen(y.X).(*ast.Ident); ok && y.Op == token.AND && info.Uses[lid] == o {
+				n += 2
+			}
+		case *ast.RangeStmt:
+			for _, kv := range []ast.Expr{y.Key, y.Value} {
+				if lid, ok := kv.(*ast.Ident); ok && (info.Defs[lid] == o || info.Uses[lid] == o) {
+					n += 2
+				}
+			}
+		}
+		return true
+	})
+	if n == 1 && rhs != nil {
+		return rhs
+	}
+	return e
+}
+
+// travFallChain: the clauses whose statements run when clause cc is selected — cc itself
+// and, as long as the last statement is `fallthrough`, the clause that follows — and
+// the statements executed (the fallthrough statements themselves left out).
+func travFallChain(clauses []*ast.CaseClause, cc *ast.CaseClause) (map[*ast.CaseClause]bool, []ast.Stmt) {
+	chain := map[*ast.CaseClause]bool{cc: true}
+	idx := -1
+	for i, o := range clauses {
+		if o == cc {
+			idx = i
+		}
+	}
+	var body []ast.Stmt
+	for i := idx; i >= 0 && i < len(clauses); i++ {
+		cur := clauses[i]
+		chain[cur] = true
+		n := len(cur.Body)
+		if n > 0 {
+			if bs, ok := cur.Body[n-1].(*ast.BranchStmt); ok && bs.Tok == token.FALLTHROUGH {
+				body = append(body, cur.Body[:n-1]...)
+				continue
+			}
+		}
+		body = append(body, cur.Body...)
+		break
+	}
+	if len(chain) == 1 {
+		return chain, cc.Body
+	}
+	return chain, body
 }
 
 // shallowReads: reads of the unit without following calls that receive the subject struct itself.
@@ -639,6 +749,25 @@ func travSoleReturn(body []ast.Stmt) string {
 	}
 	if id, ok := rs.Results[0].(*ast.Ident); ok && (id.Name == "true" || id.Name == "false") {
 		return id.Name
+	}
+	return ""
+}
+
+// travSoleReturnC: like travSoleReturn, but decides by the constant value of the returned
+// expression (a named bool constant, `!false`, … are the literal they evaluate to).
+func travSoleReturnC(info *types.Info, body []ast.Stmt) string {
+	if v := travSoleReturn(body); v != "" || len(body) != 1 {
+		return v
+	}
+	rs, ok := body[0].(*ast.ReturnStmt)
+	if !ok || len(rs.Results) != 1 {
+		return ""
+	}
+	if tv, ok := info.Types[rs.Results[0]]; ok && tv.Value != nil && tv.Value.Kind() == constant.Bool {
+		if constant.BoolVal(tv.Value) {
+			return "true"
+		}
+		return "false"
 	}
 	return ""
 }
@@ -714,7 +843,7 @@ func (r *travRun) absorbing(units []*travUnit) map[string]string {
 					}
 				case *ast.IfStmt:
 					if rec, neg := isRec(info, x.Cond); rec && x.Init == nil {
-						if v := travSoleReturn(x.Body.List); v != "" {
+						if v := travSoleReturnC(info, x.Body.List); v != "" {
 							if (v == "true") != neg {
 								votes[v]++
 							}
@@ -762,9 +891,97 @@ func (r *travRun) learnLoopContext() {
 			}
 		}
 	}
+	// pass 0: loop-entering helpers — a function that increments a counter field before it hands
+	// one of its own parameters (a block) on: calling it with a block of the handled node is the
+	// same bookkeeping, moved into a helper shared by several loop statements
+	type enterer struct {
+		param int
+		field *types.Var
+		pos   token.Pos
+		fd    *ast.FuncDecl
+	}
+	enterers := map[*types.Func][]enterer{}
+	for _, fd := range AllFuncDecls(an) {
+		fn, _ := info.Defs[fd.Name].(*types.Func)
+		if fn == nil {
+			continue
+		}
+		sg := fn.Type().(*types.Signature)
+		for i := 0; i < sg.Params().Len(); i++ {
+			pv := sg.Params().At(i)
+			if !m.isBlockType(pv.Type()) {
+				continue
+			}
+			var incs []struct {
+				field *types.Var
+				pos   token.Pos
+			}
+			ast.Inspect(fd.Body, func(n ast.Node) bool {
+				if x, ok := n.(*ast.IncDecStmt); ok && x.Tok == token.INC {
+					if se, ok := x.X.(*ast.SelectorExpr); ok {
+						if v, ok := info.Uses[se.Sel].(*types.Var); ok && v.IsField() {
+							incs = append(incs, struct {
+								field *types.Var
+								pos   token.Pos
+							}{v, x.Pos()})
+						}
+					}
+				}
+				return true
+			})
+			if len(incs) == 0 {
+				continue
+			}
+			ast.Inspect(fd.Body, func(n ast.Node) bool {
+				call, ok := n.(*ast.CallExpr)
+				if !ok {
+					return true
+				}
+				for _, a := range call.Args {
+					if id, ok := ast.Unparen(a).(*ast.Ident); ok && info.Uses[id] == pv {
+						for _, ic := range incs {
+							if ic.pos < call.Pos() {
+								enterers[fn] = append(enterers[fn], enterer{i, ic.field, ic.pos, fd})
+							}
+						}
+					}
+				}
+				return true
+			})
+		}
+	}
 	// pass 1: counters incremented before a block of the handled node is analysed
 	counters := map[*types.Var]bool{}
 	for _, f := range fns {
+		if len(enterers) > 0 {
+			ast.Inspect(f.fd.Body, func(n ast.Node) bool {
+				call, ok := n.(*ast.CallExpr)
+				if !ok {
+					return true
+				}
+				for _, en := range enterers[CalleeOf(info, call)] {
+					if en.param >= len(call.Args) {
+						continue
+					}
+					se, ok := ast.Unparen(call.Args[en.param]).(*ast.SelectorExpr)
+					if !ok {
+						continue
+					}
+					id, ok := ast.Unparen(se.X).(*ast.Ident)
+					if !ok || info.Uses[id] != f.pv || !m.isBlockType(info.TypeOf(se)) {
+						continue
+					}
+					counters[en.field] = true
+					if r.loopBody[f.ps] == nil {
+						r.loopBody[f.ps] = map[string]string{}
+					}
+					if r.loopBody[f.ps][se.Sel.Name] == "" {
+						r.loopBody[f.ps][se.Sel.Name] = fmt.Sprintf("%s hands %s.%s to %s, which increments %s before analysing it (%s)", travFuncKey(an, f.fd), f.ps.Short(), se.Sel.Name, travFuncKey(an, en.fd), en.field.Name(), r.c.Pos(en.pos))
+					}
+				}
+				return true
+			})
+		}
 		type incSite struct {
 			field *types.Var
 			pos   token.Pos
